@@ -3,6 +3,7 @@ package dns
 func init() {
 	vRegister("H_C19_single", H_C19_single)
 	vRegister("H_C19_pair", H_C19_pair)
+	vRegister("H_C19_pair_dotted", H_C19_pair_dotted)
 	vRegister("H_C19_vacuity", H_C19_vacuity)
 	vRegister("H_C19_text", H_C19_text)
 }
@@ -164,6 +165,45 @@ func H_C19_pair() {
 	vAssert(got == want, "comparedomainname")
 	vAssert(CompareDomainName(sb, sa) == want, "comparedomainname-symmetric")
 	vAssert(IsSubDomain(sa, sb) == (want == na), "issubdomain")
+}
+
+// H_C19_pair_dotted: the child name is the parent preceded by one more label of three arbitrary octets - so the
+// label may itself contain a dot or a backslash followed by the parent's first label (text that looks like a label
+// boundary but is not one): the helpers must follow the wire labels, not the text.
+func H_C19_pair_dotted() {
+	na := 1 + vChoice("na", vParam("C19.dottedlabels", 2))
+	a := vWireLabels("a", na, 1)
+	first := vBytes("c", 2+vChoice("cl", 2))
+	b := [][]byte{first}
+	for i := range a {
+		lb := vBytes("b"+vItoa(i), len(a[i]))
+		for j := range lb {
+			vAssume(refLowerByte(lb[j]) == refLowerByte(a[i][j]))
+		}
+		b = append(b, lb)
+	}
+	sa := vPresentation(a)
+	sb := vPresentation(b)
+	if vChoice("rel", 2) == 1 {
+		sa = vTrimRootDot(sa)
+		sb = vTrimRootDot(sb)
+	}
+	vReach("pair-built")
+	vObserve("dotted", sa, sb, IsSubDomain(sa, sb), IsSubDomain(sb, sa), CompareDomainName(sa, sb))
+	vAssert(CompareDomainName(sa, sb) == na, "comparedomainname")
+	vAssert(CompareDomainName(sb, sa) == na, "comparedomainname-symmetric")
+	vAssert(IsSubDomain(sa, sb), "issubdomain")
+	vAssert(!IsSubDomain(sb, sa), "issubdomain-not-of-own-child")
+	// the child's last na-1 labels only are below the parent's parent; the text after an escaped dot is not a name
+	if len(first) == 3 {
+		inner := [][]byte{{first[2]}}
+		inner = append(inner, b[1:]...)
+		// inner = the text that follows first[1] if that octet were a label boundary
+		si := vPresentation(inner)
+		{
+			vAssert(IsSubDomain(si, sb) == (refCommonSuffix(inner, b) == len(inner)), "issubdomain-follows-wire-labels")
+		}
+	}
 }
 
 // H_C19_vacuity: twin whose final assertion must be reported violated.
